@@ -133,7 +133,7 @@ func (c Case) describe() map[string]any {
 			m["construction"] = "all vertices first, then the edges one by one with a query after each"
 		}
 		if c.Build > 0 {
-			m["construction"] = [...]string{"", "edges first, then AddNode for every vertex", "endpoints reversed, every edge given twice", "two AddEdge calls per edge", "Init(n) first", "built, Init(1) on the populated graph, built again", "AddEdge(from,to) first, then AddUndirectedEdge(from,to)"}[c.Build]
+			m["construction"] = [...]string{"", "edges first, then AddNode for every vertex", "endpoints reversed, every edge given twice", "two AddEdge calls per edge", "Init(n) first", "a complete graph on N+1 vertices built first, Init(1), then the graph itself", "AddEdge(from,to) first, then AddUndirectedEdge(from,to)"}[c.Build]
 		}
 		if c.Kind == kBK {
 			m["P"] = append([]int(nil), c.Perm...)
@@ -275,7 +275,12 @@ func runCase(c Case) (out Outcome) {
 			case 4:
 				g.Init(c.N)
 			case 5:
-				build()
+				// another graph first (the complete graph on N+1 vertices): Init must forget it
+				for a := 0; a <= c.N; a++ {
+					for b := a + 1; b <= c.N; b++ {
+						g.AddUndirectedEdge(a, b)
+					}
+				}
 				g.Init(1)
 			}
 			build()
